@@ -335,6 +335,23 @@ func c10GoFields(c *core.Ctx) {
 			}
 		}
 	}
+	// an item that is not there (nil) among the items of a list: no value of any type
+	for _, f := range []val.Format{val.FmtStringList, val.FmtInt32List, val.FmtInt64List, val.FmtUInt8List, val.FmtBoolList, val.FmtDecimal64List, val.FmtBinaryList} {
+		for _, first := range []interface{}{"1", 1, true, 1.5} {
+			src := []interface{}{first, nil}
+			tag := fmt.Sprintf("nil-item/%s", f)
+			c.Eval()
+			c.Shape("%s/%T", tag, first)
+			var got val.Value
+			var gerr error
+			if c.Guard(tag, func() { got, gerr = val.Conv(f, src) }) || gerr != nil || got == nil {
+				continue
+			}
+			if l, isList := got.(val.Listable); isList && l.Len() >= 2 {
+				c.Violate("inexact/"+tag, "val.Conv(%s, %#v) = %v: the item that is not there became %q", f, src, got, l.Item(1).String())
+			}
+		}
+	}
 	// the other direction: a YANG integer written into a Go field (or slice item) of a narrower Go type is stored as it is, or refused
 	{
 		m, err := parser.LoadModuleFromString(nil, `module w { namespace "urn:w"; prefix w; revision 2020-01-01; leaf a { type int32; } leaf b { type uint32; } leaf c { type int64; } leaf-list al { type int32; } }`)
